@@ -448,6 +448,19 @@ def generate(repo):
         raise Untranslatable("reset(): assignment to count not found")
     count0 = int(mc.group(1))
 
+    # constants of Sha256.hpp (the header is part of the preprocessed translation unit)
+    hdr = {}
+    for key, rx in (("blockSize", r"static\s+const\s+usize\s+blockSize\s*=\s*(\d+)\s*;"),
+                    ("digestSize", r"static\s+const\s+usize\s+digestSize\s*=\s*(\d+)\s*;"),
+                    ("hmacOpad", r"oKeyPad\s*\[\s*i\s*\]\s*=\s*hashKey\s*\[\s*i\s*\]\s*\^\s*(0[xX][0-9a-fA-F]+|\d+)\s*;"),
+                    ("hmacIpad", r"iKeyPad\s*\[\s*i\s*\]\s*=\s*hashKey\s*\[\s*i\s*\]\s*\^\s*(0[xX][0-9a-fA-F]+|\d+)\s*;")):
+        mm = re.findall(rx, code)
+        if len(mm) != 1:
+            raise Untranslatable(f"Sha256.hpp: constant {key} not found (or found {len(mm)} times)")
+        hdr[key] = int(mm[0], 0)
+    if hdr["hmacOpad"] > 255 or hdr["hmacIpad"] > 255:
+        raise Untranslatable("HMAC pad constants do not fit a byte")
+
     M = Macros(defs)
     for name in PURE:
         if name not in defs:
@@ -478,7 +491,10 @@ def generate(repo):
            "def K : List UInt32 := [\n  " + ",\n  ".join(", ".join(hx(v) for v in K[i:i + 8]) for i in range(0, 64, 8)) + "]\n\n",
            "/-- the state written by `Sha256::reset()` -/\n",
            "def H0 : List UInt32 := [" + ", ".join(hx(v) for v in H0) + "]\n\n",
-           f"/-- the count written by `Sha256::reset()` -/\ndef count0 : UInt64 := {count0}\n\n"]
+           f"/-- the count written by `Sha256::reset()` -/\ndef count0 : UInt64 := {count0}\n\n",
+           f"/-- `Sha256::blockSize`, `Sha256::digestSize` (Sha256.hpp) -/\ndef blockSize : Nat := {hdr['blockSize']}\ndef digestSize : Nat := {hdr['digestSize']}\n\n",
+           f"/-- `oKeyPad[i] = hashKey[i] ^ …`, `iKeyPad[i] = hashKey[i] ^ …` in `Sha256::hmac` -/\n"
+           f"def hmacOpad : UInt8 := 0x{hdr['hmacOpad']:02x}\ndef hmacIpad : UInt8 := 0x{hdr['hmacIpad']:02x}\n\n"]
     for name in PURE:
         out.append(f"/-- `#define {name}({','.join(defs[name][0])}) {defs[name][1]}` -/\n")
         out.append(pure_def(M, name) + "\n")
